@@ -45,6 +45,10 @@ def description(max_total=210, max_tags=8):
             mx = min(room - 2, 208)
             ln = draw(st.one_of(st.integers(0, min(mx, 4)), st.integers(0, mx), st.just(mx)))
             v = draw(st.binary(min_size=ln, max_size=ln))
+            if t == 0xC2 and mx >= 3 and draw(st.booleans()):
+                # the ENC tag with look-alike values: only the exact one-byte value 02 means "session-key encrypted"
+                v = draw(st.sampled_from([b"", b"\x00", b"\x01", b"\x02", b"\x03", b"\x02\x00", b"\x00\x02", b"\x00\x00\x02", b"\x02\x02"]))
+                ln = len(v)
             out.append((t, v))
             room -= 2 + ln
         return out
